@@ -438,7 +438,7 @@ def check_glyph(prog, rep):
 def check_grammar(prog, rep):
     """R14.4 on path summaries: StrGlyphMapping::{chars, ranges} decode the NUL-marker grammar; index() is the position
     of the first equal character in chars() with replacement_index as fallback."""
-    from mirq.paths import CONTINUES, NONE
+    from mirq.paths import CONTINUES, NONE, is_continues
     idx = prog.method1(STRMAP, "index", "embedded_graphics::mono_font::mapping::GlyphMapping")
     ri = ("field", ("param", 1, "self"), field_index(prog, STRMAP, "replacement_index"))
     me, cpar = ("param", 1, "self"), ("param", 2, "c")
@@ -451,7 +451,7 @@ def check_grammar(prog, rep):
         summs = []
         bad.append("cannot summarise index(): %s" % e)
     for sm in summs:
-        if sm.ret is None or any(n == CONTINUES for x in [sm.ret] + [y for fct in sm.facts for y in fct[1:] if isinstance(y, tuple)] for n in walk(x)):
+        if sm.ret is None or any(is_continues(n) for x in [sm.ret] + [y for fct in sm.facts for y in fct[1:] if isinstance(y, tuple)] for n in walk(x)):
             continue
         nxt = [fct for fct in sm.facts if fct[0] == "variant" and fct[1][0] == "call" and fct[1][1].split("::")[-1] == "next"]
         if len(nxt) != 1 or sm.effects:
